@@ -193,7 +193,7 @@ func c19Keyed(w *World, r *Report, merge *ssa.Function) {
 		ob.Undecided("anchor/methods", "shardView.update / shardInfo not found")
 		return
 	}
-	n := 0
+	n, nLookupTotal := 0, 0
 	eachInstr(up, func(in ssa.Instruction) {
 		mu, ok := in.(*ssa.MapUpdate)
 		if !ok {
@@ -218,24 +218,24 @@ func c19Keyed(w *World, r *Report, merge *ssa.Function) {
 		// first argument: phi(lookup[key], default{ShardID: key})
 		curE := Expr(call.Call.Args[0])
 		okCur := strings.Contains(curE, "["+key+"]")
+		if okCur {
+			nLookupTotal++
+		}
 		if u, ok := call.Call.Args[0].(*ssa.UnOp); ok && !okCur {
 			if al, ok := u.X.(*ssa.Alloc); ok {
+				// a local that holds the looked-up entry or the default entry (whose ShardID is
+				// checked below) - or, with one write per case, the default entry alone
 				okCur = true
-				nLookup := 0
 				for _, st := range storesTo(up, al) {
 					e := Expr(st.Val)
 					switch {
 					case strings.Contains(e, "["+key+"]"):
-						nLookup++
+						nLookupTotal++
 					case strings.HasPrefix(e, "local") || e == "zero":
-						// the default entry (its ShardID is checked below)
 					default:
 						okCur = false
 						curE = e
 					}
-				}
-				if nLookup == 0 {
-					okCur = false
 				}
 			}
 		}
@@ -245,6 +245,8 @@ func c19Keyed(w *World, r *Report, merge *ssa.Function) {
 	})
 	if n == 0 {
 		ob.Violate("update-no-write", up.Pos(), "the update method never writes the view")
+	} else if nLookupTotal == 0 {
+		ob.Violate("update-current-key", up.Pos(), "no write of the view merges into the entry already stored under the update's shard id: what was known about the shard is forgotten on every update")
 	}
 	// default entry's ShardID
 	okDefault := false
